@@ -136,6 +136,11 @@ func (f *Field) sortArgs() (errors []error) {
 			errors = append(errors, valError(av.line, av.col, "%s is not an argument to %s", av.Arg, f.Name))
 		}
 	}
-	f.Args = args
+	if len(errors) == 0 {
+		// Only a valid argument list is put in order, an invalid one is kept
+		// as written so it is reported again when the request is resolved
+		// again.
+		f.Args = args
+	}
 	return
 }
